@@ -4,7 +4,9 @@
 (* JSON line:                                                                 *)
 (*   w, nrx, via ("cli" | "toml"), df/ac filter (present, list),              *)
 (*   chunk[r]  how receiver r's bytes are cut into writes,                    *)
-(*   steps     [rx, fr (the complete un-escaped Beast frame), dec, gap]       *)
+(*   steps     [rx, fr (the complete un-escaped Beast frame; its six time     *)
+(*             stamp bytes are filled in by the driver from off and k, see    *)
+(*             KOf), dec, gap, off, k]                                        *)
 (*   push      3 rounds x nrx trailing frames with fresh addresses, each sent *)
 (*             after a pause longer than the window, so that earlier windows  *)
 (*             close                                                          *)
@@ -55,13 +57,23 @@ ASSUME \A x \in 1..Len(BadPool) : NeverDecodes(BadPool[x])
 ModeAC == <<119, 0>>                                                     \* type '1' payload
 
 TypeFor(pay) == IF Len(pay) = 14 THEN 51 ELSE IF Len(pay) = 7 THEN 50 ELSE 49
-(* reception identifiers: the step number s (>= 1) with 0x1A bytes around it *)
-IdBytes(s, c) == CASE c = 0 -> <<0, 0, 0, 0, 0, s>>
-                   [] c = 1 -> <<26, 0, 0, 0, 0, s>>
-                   [] c = 2 -> <<0, 0, 0, 0, s, 26>>
-                   [] c = 3 -> <<0, 26, 26, 0, 0, s>>
-                   [] c = 4 -> <<0, 0, 0, 26, 0, s>>
-                   [] OTHER -> <<26, 26, 26, 26, 1, s>>
+(* Reception identifiers = the 48-bit Beast time stamp (second of day << 30 | *)
+(* ns field).  The driver fills the six bytes in when the scenario starts:    *)
+(*   seconds = (current UTC second of day + off) mod 86400,  ns field = k     *)
+(* so that the stamps are realistic: off = 0 for most frames (the receiver's  *)
+(* GNSS clock agrees with the wall clock), minutes ahead / behind, seconds    *)
+(* ahead / behind, or two hours off (implausible: no GNSS time).  k is unique *)
+(* per frame (the step number s >= 1 with 0x1A bytes around it).  TLC never    *)
+(* handles the 48-bit number: it passes the pair (off, k).                    *)
+KOf(s, c) == CASE c = 0 -> s
+               [] c = 1 -> 1703936 + s              \* 00 1A 00 ss
+               [] c = 2 -> 256 * s + 26             \* 00 00 ss 1A
+               [] c = 3 -> 1710592 + s              \* 00 1A 1A ss
+               [] c = 4 -> 6656 + s                 \* 00 00 1A ss
+               [] OTHER -> 436214272 + s            \* 1A 00 1A ss
+PushK(r, round) == 16711680 + 16 * round + r        \* 00 FF 0r..
+OffBag == <<0, 0, 0, 0, 0, 0, 0, 0, -1200, 1200, 3, -3, 7200>>
+IdBytes(s, c) == <<0, 0, 0, 0, 0, 0>>               \* placeholder, see above
 SigByte(s, c) == IF c = 2 THEN 26 ELSE IF c = 4 THEN 255 ELSE 10 + s
 Frame(ty, s, c, pay) == <<26, ty>> \o IdBytes(s, c) \o <<SigByte(s, c)>> \o pay
 
@@ -72,7 +84,7 @@ PushAddr(r, round) == 16384000 + 256 * r + round                         \* 0xFA
 PushPayload(r, round) ==
   LET head == <<141>> \o Be3(PushAddr(r, round)) \o <<32, 64, 195, 85, 56, 32 + r, 16 + round>>
   IN head \o Be3(Parity(head))
-PushFrame(r, round) == <<26, 51, 255, round, 0, 0, 0, r, 40>> \o PushPayload(r, round)
+PushFrame(r, round) == <<26, 51, 0, 0, 0, 0, 0, 0, 40>> \o PushPayload(r, round)
 
 StepKinds == <<"new", "new", "new", "dupother", "dupother", "dupother", "dupother", "dupsame", "bad", "modeac", "status">>
 GapBag == <<"zero", "dup", "dup", "mid", "mid", "far">>
@@ -103,61 +115,73 @@ FilterClasses == <<"absent", "absent", "absent", "absent", "some", "some", "some
 (*     references with a zero coordinate                                       *)
 (*  F7, F8 a df filter made only of values no downlink format has (CLI, TOML): *)
 (*     nothing may be printed                                                  *)
+(*  F10 Beast time stamps ahead of / behind the wall clock (20 min, 3 s, 2 h)  *)
+(*     followed by current ones: every frame is handed on all the same         *)
 (*  F9 an aircraft filter that hides DF17 / DF20 records which have certainly  *)
 (*     left the dedup stage: they are in the table, never in a history         *)
 (* ---------------------------------------------------------------------- *)
-St(r, s, c, pay, dec, g) == [rx |-> r, fr |-> Frame(TypeFor(pay), s, c, pay), dec |-> dec, gap |-> g]
+St(r, s, c, pay, dec, g) == [rx |-> r, fr |-> Frame(TypeFor(pay), s, c, pay), dec |-> dec, gap |-> g, off |-> 0, k |-> KOf(s, c)]
+StOff(r, s, c, pay, dec, g, off) == [St(r, s, c, pay, dec, g) EXCEPT !.off = off]
 FixedPush(n) == [round \in 1..3 |-> [r \in 1..n |-> PushFrame(r, round)]]
+FixedPushK(n) == [round \in 1..3 |-> [r \in 1..n |-> PushK(r, round)]]
 Absent0 == <<>>
 Fixed == <<
   [w |-> 0, nrx |-> 2, via |-> "cli", df_present |-> FALSE, df_list |-> <<>>, ac_present |-> FALSE, ac_list |-> <<>>,
    chunk |-> <<"whole", "esc">>, ref |-> <<NoRef, NoRef>>,
    steps |-> << St(1, 1, 0, Pool[1], TRUE, "zero"), St(2, 2, 3, Pool[1], TRUE, "dup"),
                 St(1, 3, 1, Pool[4], TRUE, "mid"), St(2, 4, 2, Pool[4], TRUE, "zero") >>,
-   push |-> FixedPush(2)],
+   push |-> FixedPush(2), pushk |-> FixedPushK(2), idmode |-> "sod"],
   [w |-> 120, nrx |-> 2, via |-> "cli", df_present |-> FALSE, df_list |-> <<>>, ac_present |-> FALSE, ac_list |-> <<>>,
    chunk |-> <<"dribble", "whole">>, ref |-> <<Ref(43600000, 1360000), Ref(-33946000, 151177000)>>,
    steps |-> << St(1, 1, 4, Pool[2], TRUE, "zero"), St(2, 2, 0, Pool[9], TRUE, "far"),
                 St(2, 3, 5, Pool[2], TRUE, "far") >>,
-   push |-> FixedPush(2)],
+   push |-> FixedPush(2), pushk |-> FixedPushK(2), idmode |-> "sod"],
   [w |-> 200, nrx |-> 1, via |-> "toml", df_present |-> TRUE, df_list |-> <<17>>, ac_present |-> FALSE, ac_list |-> <<>>,
    chunk |-> <<"k7">>, ref |-> <<Ref(0, 0)>>,
    steps |-> << St(1, 1, 2, Pool[15], TRUE, "zero"), St(1, 2, 0, Pool[1], TRUE, "far"),
                 St(1, 3, 0, Pool[4], TRUE, "far") >>,
-   push |-> FixedPush(1)],
+   push |-> FixedPush(1), pushk |-> FixedPushK(1), idmode |-> "sod"],
   [w |-> 200, nrx |-> 2, via |-> "cli", df_present |-> FALSE, df_list |-> <<>>, ac_present |-> FALSE, ac_list |-> <<>>,
    chunk |-> <<"straddle", "esc">>, ref |-> <<NoRef, Ref(43600000, 1360000)>>,
    steps |-> << St(1, 1, 1, Pool[6], TRUE, "zero"), St(2, 2, 3, Pool[6], TRUE, "dup"),
                 St(2, 3, 0, BadPool[1], FALSE, "zero"), St(1, 4, 2, Pool[6], TRUE, "mid") >>,
-   push |-> FixedPush(2)],
+   push |-> FixedPush(2), pushk |-> FixedPushK(2), idmode |-> "sod"],
   [w |-> 200, nrx |-> 2, via |-> "cli", df_present |-> FALSE, df_list |-> <<>>, ac_present |-> FALSE, ac_list |-> <<>>,
    chunk |-> <<"whole", "whole">>, ref |-> <<NoRef, Ref(51477900, 0)>>,
    steps |-> << St(1, 1, 0, Pool[2], TRUE, "zero"), St(2, 2, 0, Pool[2], TRUE, "dup"),        \* airborne even: unlocated first
                 St(2, 3, 0, Pool[22], TRUE, "far"), St(1, 4, 1, Pool[22], TRUE, "dup"),        \* surface odd: located first
                 St(1, 5, 0, Pool[13], TRUE, "far"), St(2, 6, 3, Pool[13], TRUE, "dup"),        \* DF18 position: unlocated first
                 St(2, 7, 0, Pool[3], TRUE, "far"), St(1, 8, 0, Pool[3], TRUE, "dup") >>,       \* airborne odd: located first
-   push |-> FixedPush(2)],
+   push |-> FixedPush(2), pushk |-> FixedPushK(2), idmode |-> "sod"],
   [w |-> 120, nrx |-> 3, via |-> "toml", df_present |-> FALSE, df_list |-> <<>>, ac_present |-> FALSE, ac_list |-> <<>>,
    chunk |-> <<"whole", "k7", "whole">>, ref |-> <<Ref(0, 36820000), NoRef, Ref(48700000, 2380000)>>,
    steps |-> << St(2, 1, 0, Pool[23], TRUE, "zero"), St(1, 2, 0, Pool[23], TRUE, "dup"), St(3, 3, 2, Pool[23], TRUE, "dup"),
                 St(3, 4, 0, Pool[5], TRUE, "far"), St(2, 5, 4, Pool[5], TRUE, "dup"),
                 St(2, 6, 0, Pool[6], TRUE, "far"), St(3, 7, 0, Pool[6], TRUE, "dup") >>,
-   push |-> FixedPush(3)],
+   push |-> FixedPush(3), pushk |-> FixedPushK(3), idmode |-> "sod"],
   [w |-> 40, nrx |-> 1, via |-> "cli", df_present |-> TRUE, df_list |-> <<22>>, ac_present |-> FALSE, ac_list |-> <<>>,
    chunk |-> <<"whole">>, ref |-> <<NoRef>>,
    steps |-> << St(1, 1, 0, Pool[1], TRUE, "zero"), St(1, 2, 0, Pool[9], TRUE, "mid"), St(1, 3, 0, Pool[17], TRUE, "far") >>,
-   push |-> FixedPush(1)],
+   push |-> FixedPush(1), pushk |-> FixedPushK(1), idmode |-> "sod"],
   [w |-> 40, nrx |-> 1, via |-> "toml", df_present |-> TRUE, df_list |-> <<1, 2>>, ac_present |-> FALSE, ac_list |-> <<>>,
    chunk |-> <<"whole">>, ref |-> <<Ref(51477900, 0)>>,
    steps |-> << St(1, 1, 0, Pool[4], TRUE, "zero"), St(1, 2, 0, Pool[11], TRUE, "far") >>,
-   push |-> FixedPush(1)],
+   push |-> FixedPush(1), pushk |-> FixedPushK(1), idmode |-> "sod"],
   [w |-> 120, nrx |-> 2, via |-> "cli", df_present |-> FALSE, df_list |-> <<>>,
    ac_present |-> TRUE, ac_list |-> <<4221840, 16384257, 16384258, 16384259, 16384513, 16384514, 16384515>>,
    chunk |-> <<"whole", "whole">>, ref |-> <<NoRef, NoRef>>,
    steps |-> << St(1, 1, 0, Pool[4], TRUE, "zero"), St(2, 2, 0, Pool[9], TRUE, "dup"),      \* DF17 485020, DF20 4243d0: hidden
                 St(1, 3, 0, Pool[1], TRUE, "far"), St(2, 4, 0, Pool[1], TRUE, "dup"),       \* DF17 406b90: kept
                 St(1, 5, 0, Pool[7], TRUE, "far"), St(1, 6, 1, Pool[1], TRUE, "far") >>,
-   push |-> FixedPush(2)] >>
+   push |-> FixedPush(2), pushk |-> FixedPushK(2), idmode |-> "sod"],
+  [w |-> 120, nrx |-> 2, via |-> "cli", df_present |-> FALSE, df_list |-> <<>>, ac_present |-> FALSE, ac_list |-> <<>>,
+   chunk |-> <<"whole", "whole">>, ref |-> <<NoRef, NoRef>>,
+   steps |-> << StOff(1, 1, 0, Pool[1], TRUE, "zero", 1200),                                  \* Beast stamp 20 min ahead
+                St(1, 2, 1, Pool[4], TRUE, "far"), St(2, 3, 0, Pool[7], TRUE, "dup"),
+                StOff(2, 4, 0, Pool[9], TRUE, "mid", 3), StOff(1, 5, 0, Pool[11], TRUE, "far", -1200),
+                St(1, 6, 4, Pool[12], TRUE, "far"), StOff(2, 7, 0, Pool[8], TRUE, "mid", 7200),
+                St(1, 8, 0, Pool[17], TRUE, "far") >>,
+   push |-> FixedPush(2), pushk |-> FixedPushK(2), idmode |-> "sod"] >>
 ASSUME Env("GEN_FIXED", 0) = 1 => \A x \in 1..Len(Fixed) : PrintT(ToJson(Fixed[x]))
 
 VARIABLES gw, gnrx, gvia, gdfc, gacc, gchunk, gref, gn, gsteps, gpend, gdone
@@ -201,25 +225,26 @@ Draw ==
            LET kind == IF StepKinds[gpend[1]] \in {"dupother", "dupsame"} /\ ~LastDec THEN "new" ELSE StepKinds[gpend[1]] IN
            CASE kind = "new" ->
                   \E x \in 1..NPool, r \in 1..gnrx :
-                     gpend' = <<kind, [rx |-> r, fr |-> Frame(TypeFor(Pool[x]), s, c, Pool[x]), dec |-> TRUE]>>
+                     gpend' = <<kind, [rx |-> r, fr |-> Frame(TypeFor(Pool[x]), s, c, Pool[x]), dec |-> TRUE, k |-> KOf(s, c)]>>
              [] kind = "dupother" ->
                   \E r \in OtherRx :
-                     gpend' = <<kind, [rx |-> r, fr |-> Frame(TypeFor(LastPay), s, c, LastPay), dec |-> TRUE]>>
+                     gpend' = <<kind, [rx |-> r, fr |-> Frame(TypeFor(LastPay), s, c, LastPay), dec |-> TRUE, k |-> KOf(s, c)]>>
              [] kind = "dupsame" ->
-                  gpend' = <<kind, [rx |-> LastRx, fr |-> Frame(TypeFor(LastPay), s, c, LastPay), dec |-> TRUE]>>
+                  gpend' = <<kind, [rx |-> LastRx, fr |-> Frame(TypeFor(LastPay), s, c, LastPay), dec |-> TRUE, k |-> KOf(s, c)]>>
              [] kind = "bad" ->
                   \E x \in 1..Len(BadPool), r \in 1..gnrx :
-                     gpend' = <<kind, [rx |-> r, fr |-> Frame(51, s, c, BadPool[x]), dec |-> FALSE]>>
+                     gpend' = <<kind, [rx |-> r, fr |-> Frame(51, s, c, BadPool[x]), dec |-> FALSE, k |-> KOf(s, c)]>>
              [] kind = "modeac" ->
-                  \E r \in 1..gnrx : gpend' = <<kind, [rx |-> r, fr |-> Frame(49, s, c, ModeAC), dec |-> FALSE]>>
+                  \E r \in 1..gnrx : gpend' = <<kind, [rx |-> r, fr |-> Frame(49, s, c, ModeAC), dec |-> FALSE, k |-> KOf(s, c)]>>
              [] OTHER ->
-                  \E r \in 1..gnrx : gpend' = <<kind, [rx |-> r, fr |-> Frame(52, s, c, Pool[2]), dec |-> FALSE]>>
+                  \E r \in 1..gnrx : gpend' = <<kind, [rx |-> r, fr |-> Frame(52, s, c, Pool[2]), dec |-> FALSE, k |-> KOf(s, c)]>>
         /\ UNCHANGED gsteps
      \/ /\ Len(gpend) = 2
-        /\ \E x \in 1..Len(GapBag) :
+        /\ \E x \in 1..Len(GapBag), y \in 1..Len(OffBag) :
              LET g == IF gpend[1] = "dupother" /\ x <= 4 THEN "dup" ELSE GapBag[x] IN
              /\ gpend' = <<>>
-             /\ gsteps' = Append(gsteps, [rx |-> gpend[2].rx, fr |-> gpend[2].fr, dec |-> gpend[2].dec, gap |-> g])
+             /\ gsteps' = Append(gsteps, [rx |-> gpend[2].rx, fr |-> gpend[2].fr, dec |-> gpend[2].dec, gap |-> g,
+                                          off |-> OffBag[y], k |-> gpend[2].k])
   /\ UNCHANGED <<gw, gnrx, gvia, gdfc, gacc, gchunk, gref, gn, gdone>>
 
 Finish == /\ SetupDone /\ Len(gsteps) = gn /\ ~gdone /\ gdone' = TRUE
@@ -249,6 +274,7 @@ Scenario ==
    chunk |-> [r \in 1..gnrx |-> ChunkBag[gchunk[r]]],
    ref |-> [r \in 1..gnrx |-> RefBag[gref[r]]],
    steps |-> gsteps,
-   push |-> [round \in 1..3 |-> [r \in 1..gnrx |-> PushFrame(r, round)]]]
+   push |-> [round \in 1..3 |-> [r \in 1..gnrx |-> PushFrame(r, round)]],
+   pushk |-> [round \in 1..3 |-> [r \in 1..gnrx |-> PushK(r, round)]], idmode |-> "sod"]
 Emit == IF gdone THEN PrintT(ToJson(Scenario)) ELSE TRUE
 =============================================================================
